@@ -62,7 +62,7 @@ def knownScalar (k : String) : Bool :=
 def simpleBranch (f : Field) : Bool :=
   match f.ty with
   | .scalar k _ _ fm => knownScalar k && !hasHint fm "string_format_datetime"
-  | .array (.scalar k _ _ em) _ => knownScalar k && !hasHint em "string_format_datetime"
+  | .array (.scalar k _ _ em) _ => knownScalar k && !hasHint em "string_format_datetime" && k != "uint8"
   | _ => false
 
 def isEmptyColl : Json → Bool
@@ -101,6 +101,7 @@ def den : Nat → Schemas → Ty → Json → Bool
         (m.nullable && j.isNull) || (match j with | .str _ => kind = "string" | _ => false)
       else (m.nullable && j.isNull) || denScalar kind j
     | .array e m =>
+      !isByteElem e &&
       match j with
       | .null => m.nullable
       | .arr xs => xs.all (den fuel ss e)
